@@ -295,10 +295,8 @@ func vp_C07_member() {
 	case *eventV3:
 		e.PrevEvents = []string{prev}
 	}
-	// KF-C18-1: org.matrix.msc3787 has no checkRestrictedJoinAllowedFunc: a join under a (knock_)restricted rule calls nil
-	vpExpectPanic("KF-C18-1", ver == "org.matrix.msc3787" && c.newMembership == spec.Join && c.selfTarget && (c.joinRule == spec.Restricted || c.joinRule == spec.KnockRestricted))
+	// (fixed: KF-C18-1 - org.matrix.msc3787 had no checkRestrictedJoinAllowedFunc and panicked here)
 	err := Allowed(ev, auth, vpUserIDForSender)
-	vpEndExpect()
 	got := err == nil
 	want, either := vpSpecMember2(c)
 	nver, _ := vpVerNum(ver)
